@@ -220,4 +220,90 @@ theorem apiFetchIDs_within (maxReq : Nat) (ids : List (Nat × Nat))
   unfold apiFetchIDs
   rw [apiParse_idStrings ids h, if_neg (by omega)]
 
+/-! ## what `FromString` accepts -/
+
+theorem unhex_lt (c n : Nat) (h : unhex c = some n) : n < 16 := by
+  unfold unhex at h
+  split at h
+  · simp only [Option.some.injEq] at h; omega
+  · split at h
+    · simp only [Option.some.injEq] at h; omega
+    · split at h
+      · simp only [Option.some.injEq] at h; omega
+      · cases h
+
+theorem hexDec_spec : ∀ (x bs : List Nat), hexDec x = some bs → x.length = 2 * bs.length ∧ ∀ b, b ∈ bs → b < 256
+  | [], bs, h => by simp only [hexDec, Option.some.injEq] at h; subst h; simp
+  | [_], bs, h => by simp [hexDec] at h
+  | a :: b :: rest, bs, h => by
+    simp only [hexDec] at h
+    cases ha : unhex a with
+    | none => simp [ha] at h
+    | some x =>
+      cases hb : unhex b with
+      | none => simp [ha, hb] at h
+      | some y =>
+        cases hr : hexDec rest with
+        | none => simp [ha, hb, hr] at h
+        | some r =>
+          simp only [ha, hb, hr, Option.some.injEq] at h
+          subst h
+          obtain ⟨hl, hlt⟩ := hexDec_spec rest r hr
+          have hx := unhex_lt a x ha
+          have hy := unhex_lt b y hb
+          refine ⟨by simp only [List.length_cons]; omega, ?_⟩
+          intro c hc
+          rcases List.mem_cons.mp hc with rfl | hc
+          · omega
+          · exact hlt c hc
+
+theorem fromLE_lt_pow (bs : List Nat) (hb : ∀ b, b ∈ bs → b < 256) : fromLE bs < 256 ^ bs.length := by
+  induction bs with
+  | nil => simp [fromLE]
+  | cons b tl ih =>
+    have h1 := hb b (by simp)
+    have h2 := ih (fun c hc => hb c (by simp [hc]))
+    have e : fromLE (b :: tl) = b + 256 * fromLE tl := rfl
+    rw [e, List.length_cons, Nat.pow_succ]
+    have : 256 * fromLE tl + 256 ≤ 256 * 256 ^ tl.length := by
+      have : fromLE tl + 1 ≤ 256 ^ tl.length := h2
+      calc 256 * fromLE tl + 256 = 256 * (fromLE tl + 1) := by rw [Nat.mul_add, Nat.mul_one]
+        _ ≤ 256 * 256 ^ tl.length := Nat.mul_le_mul_left _ this
+    rw [Nat.mul_comm (256 ^ tl.length) 256]
+    omega
+
+theorem fromLE_lt (bs : List Nat) (hl : bs.length = 8) (hb : ∀ b, b ∈ bs → b < 256) :
+    fromLE bs < 18446744073709551616 := by
+  have h := fromLE_lt_pow bs hb
+  rw [hl] at h
+  exact h
+
+/-- every accepted text names a 64-bit ID -/
+theorem fromString_range (x : List Nat) (m r : Nat) (h : fromString x = some (m, r)) :
+    m < 18446744073709551616 ∧ r < 18446744073709551616 := by
+  unfold fromString at h
+  split at h
+  · cases h
+  · rename_i hlen
+    have hlen : x.length = 33 := by omega
+    cases hm : hexDec (x.take 16) with
+    | none => simp [hm] at h
+    | some mb =>
+      cases hr : hexDec (x.drop 17) with
+      | none => simp [hm, hr] at h
+      | some rb =>
+        simp only [hm, hr, Option.some.injEq, Prod.mk.injEq] at h
+        obtain ⟨rfl, rfl⟩ := h
+        obtain ⟨l1, b1⟩ := hexDec_spec _ _ hm
+        obtain ⟨l2, b2⟩ := hexDec_spec _ _ hr
+        have : mb.length = 8 := by simp [List.length_take, hlen] at l1; omega
+        have : rb.length = 8 := by simp [List.length_drop, hlen] at l2; omega
+        exact ⟨fromLE_lt mb ‹_› b1, fromLE_lt rb ‹_› b2⟩
+
+/-- ... and `String()` of that ID is a canonical text for it: parsing is idempotent through re-encoding -/
+theorem fromString_canonical (x : List Nat) (m r : Nat) (h : fromString x = some (m, r)) :
+    fromString (idString m r) = some (m, r) := by
+  obtain ⟨h1, h2⟩ := fromString_range x m r h
+  exact fromString_idString m r h1 h2
+
 end SV.IDStr
